@@ -1555,6 +1555,13 @@ class Interp:
                 d += 1
                 v = v[0] if v else None
             return d if fn == "ndim" else d == 0
+        if fn in ("ndim", "isscalar") and args and (
+                getattr(args[0], "skv_isarray", False)
+                or isinstance(args[0], (Arr, SymArr, StoreArr))):
+            # an array stub stands for an index / value *array*
+            if isinstance(args[0], Arr):
+                return len(args[0].shape) if fn == "ndim" else False
+            return 1 if fn == "ndim" else False
         if fn in ("array", "asarray", "hstack", "stack") and \
                 fn in ("array", "asarray"):
             return to_arr(args[0])
